@@ -5,7 +5,7 @@ from ..engines import index_rules, ranges, witness
 from ..engines.validators import closure_return, subst
 from ..facts import CheckError
 from ..progs import programs
-from ..sym import Sym, fmt
+from ..sym import Sym, atoms, fmt
 from . import c03
 
 SPLITS = {"split_by_height": "height", "split_by_width": "width",
@@ -260,6 +260,119 @@ def count(rep, prog, rule):
     rep.floor(rule, "non-delegating splits", n, 13)
 
 
+def _lower_bounds(f, sym, e, depth=0, seen=None):
+    """the summands of the lower bound of a slice expression relative to the image's pixel
+    storage: slicing [a..b] / [a..] adds a, split_at(s, k).1 adds k, [..b] and .0 add nothing;
+    a loop-carried slice variable contributes the bounds of all its definitions. None = unknown"""
+    seen = seen if seen is not None else set()
+    if depth > 24 or not isinstance(e, tuple) or not e:
+        return None
+    while e[0] == "cast":
+        e = e[2]
+    if e[0] in ("ref", "deref"):
+        return _lower_bounds(f, sym, e[1], depth + 1, seen)
+    if e[0] == "field":
+        base = e[1]
+        while base[0] == "cast":
+            base = base[2]
+        if base[0] in ("call", "callat"):
+            nm = base[2] if base[0] == "callat" else base[1]
+            args = base[3] if base[0] == "callat" else base[2]
+            if nm in ("split_at", "split_at_mut", "split_at_unchecked", "split_at_mut_unchecked") and len(args) == 2:
+                inner = _lower_bounds(f, sym, args[0], depth + 1, seen)
+                if inner is None:
+                    return None
+                return inner + ([args[1]] if e[2] in (1, "1") else [])
+        if base[0] == "param" and isinstance(e[2], str):
+            return []           # self.pixels: the storage itself
+        return None
+    if e[0] in ("call", "callat"):
+        nm = e[2] if e[0] == "callat" else e[1]
+        args = e[3] if e[0] == "callat" else e[2]
+        if nm in ("index", "index_mut", "get_unchecked", "get_unchecked_mut") and len(args) == 2:
+            inner = _lower_bounds(f, sym, args[0], depth + 1, seen)
+            if inner is None:
+                return None
+            r = args[1]
+            while r[0] == "cast":
+                r = r[2]
+            if r[0] == "agg":
+                nm2 = str(r[2])
+                if nm2.endswith("RangeTo") or nm2.endswith("RangeFull") or nm2.endswith("RangeToInclusive"):
+                    return inner
+                if (nm2.endswith("Range") or nm2.endswith("RangeFrom") or nm2.endswith("RangeInclusive")) and r[4]:
+                    return inner + [r[4][0]]
+            return None
+        if nm in ("borrow", "borrow_mut", "deref", "deref_mut", "as_ref", "as_mut", "as_slice",
+                  "as_mut_slice") and args:
+            return _lower_bounds(f, sym, args[0], depth + 1, seen)
+        return None
+    if e[0] == "local":
+        if e[1] in seen:
+            return []
+        seen = seen | {e[1]}
+        out = []
+        ds = sym.defs.get(e[1], [])
+        if not ds:
+            return None
+        for (bb, j, rv, whole) in ds:
+            if not whole:
+                return None
+            r = _lower_bounds(f, sym, sym.rvalue(rv, bb, (bb, j)), depth + 1, seen)
+            if r is None:
+                return None
+            out += r
+        return out
+    if e[0] == "param":
+        return []
+    return None
+
+
+def band_start(rep, prog, rule):
+    rep.rule(rule, "the slice-based splits (TypedImageRef / TypedImage, by height) cut every part out of "
+             "the pixel storage at an offset that includes the requested start row: the lower bound of the "
+             "slice handed to the part constructor - summed over split_at(..).1, [a..b] and [a..] steps, "
+             "through the loop-carried rest slice - depends on start_row; parts whose offset is computed "
+             "from the part index alone expose rows 0.. of the image instead of the requested band")
+    n = 0
+    for f, m, who in split_impls(prog):
+        if not (who.startswith("images::typed_image::TypedImage") and m.startswith("split_by_height")):
+            continue
+        sym = Sym(f)
+        ctor = [c for c in f.calls() if c.name.endswith("TypedImageRef::<'a, P>::new")
+                or c.name.endswith("from_pixels_slice")]
+        if len(ctor) != 1:
+            continue
+        n += 1
+        rep.touch(f)
+        c = ctor[0]
+        px = sym.operand(c.args[2], (c.bb, "term"))
+        lbs = _lower_bounds(f, sym, px)
+        key = f.name
+        if lbs is None:
+            rep.unk(rule, key, c.at, "lower bound of the part's pixel slice not followed: %s" % fmt(px)[:100])
+            continue
+        txt = " + ".join(fmt(x)[:60] for x in lbs) or "0"
+        dep = False
+        for x in lbs:
+            s = fmt(x)
+            if "start_row" in s:
+                dep = True
+            # `top` is initialised with start_row
+            for a in atoms(x):
+                if a[0] == "local" and f.local_name(a[1]) == "top":
+                    for (bb, j, rv, w) in sym.defs.get(a[1], []):
+                        if "start_row" in fmt(sym.rvalue(rv, bb, (bb, j))):
+                            dep = True
+        if dep:
+            rep.ok(rule, key, c.at, "parts start at %s" % txt[:120])
+        else:
+            rep.bad(rule, key + "|start-row-ignored", c.at,
+                    "%s: the parts are cut at offset %s, which does not depend on start_row: a split of the "
+                    "band [start_row, start_row + height) returns the rows [0, height)" % (f.name, txt[:160]))
+    rep.floor(rule, "slice-based splits by height", n, 3)
+
+
 def offsets(rep, prog, rule):
     rep.rule(rule, "a cropped view forwards (start + own offset on the split axis, size, "
              "num_parts) to the wrapped view's split and re-wraps every part with its own offset "
@@ -500,6 +613,7 @@ def run(rep, tier):
         rep.call(offsets, rep, prog, "C14.offsets")
         rep.call(aliasing, rep, prog, "C14.aliasing")
         rep.call(positions, rep, prog, "C14.positions")
+        rep.call(band_start, rep, prog, "C14.band-start")
         if cfg != "wasm":
             n = rep.call(c03.arith, rep, prog, "C14.arith", only=lambda f: "split_by_" in f.name) or 0
             rep.floor("C14.arith", "arithmetic asserts in splits", n, 40)
